@@ -75,7 +75,7 @@ Qed.
 Lemma ap1_skipped m d (lhs : list T) n_rhs off : (length lhs <= n_rhs)%nat ->
   apply_padding1 m d lhs n_rhs off = Ok lhs.
 Proof.
-  intros Hle. unfold apply_padding1, padding_skipped, zlen.
+  intros Hle. unfold apply_padding1, padding_skipped, zlen. change size_guard_before_skip with false; cbn [andb].
   destruct (Z.leb_spec (Z.of_nat (length lhs)) (Z.of_nat n_rhs)); [reflexivity | lia].
 Qed.
 
